@@ -5,6 +5,7 @@ package balancer
 import (
 	"errors"
 	"sync"
+	"time"
 
 	v "github.com/VKCOM/statshouse/internal/zzverif"
 )
@@ -24,6 +25,7 @@ func c31NewBuffer() *pktBuffer {
 // This is "forwarded within a bounded delay even if no further packets arrive": the only event
 // left to wait for would be another push.
 func c31Batch(consumerFirst bool, maxN, maxRounds int) {
+	v.NativeQuiesce = 1500 * time.Millisecond // native runs: let the real 1 s batch timer fire
 	b := c31NewBuffer()
 	n := 1 + v.Choice(maxN)
 	var sent [][]byte
